@@ -160,7 +160,7 @@ package sftp
 //@   requires c != nil && c.inflight != nil && c.WriteCloser != nil && ctx != nil && p != nil
 //@   requires ghost.idFresh && p.id() == ghost.lastID
 //@   ensures !ghost.idFresh
-//@   modifies bytes, mapof c.inflight, ghost.idFresh
+//@   modifies bytes, mapof c.inflight, ghost.idFresh, ghost.consumeOK, ghost.consumeSid
 //@   channel global:type:sftp.result invariant m.err == nil ==> len(m.data) >= 4
 //@   ensures err == nil ==> len(data) >= 4
 
@@ -180,7 +180,10 @@ package sftp
 //@   modifies *flags, *fileStat
 
 //@ func sendPacket
+//@   requires typeis(w, *conn) ==> locked(&w.(*conn).Mutex)
 //@   modifies bytes
+// (a packet is written to a shared connection as up to two Write calls; they are contiguous on the wire only
+//  because every caller holds the connection's write lock across the call)
 
 //@ func (*conn).sendPacket
 //@   property C03
@@ -1376,6 +1379,9 @@ package sftp
 //@   property C20, C03, C04
 //@   requires ccOK(c)
 //@   loop 1 invariant ccOK(c)
+//@   loop 1 ghost consumeOK, consumeSid
+//@   update after call unmarshalUint32Safe#1: ghost.consumeOK = ret2 == nil
+//@   update after call unmarshalUint32Safe#1: ghost.consumeSid = ret0
 //@   ensures result != nil
 
 //@ func (*clientConn).putChannel
@@ -1387,10 +1393,19 @@ package sftp
 //@   assert before send ch#1: locked(&c.Mutex) && m_err_nonnil(arg1)
 //@   assert before mapupdate#1: locked(&c.Mutex)
 
+//@ ghost var consumeOK bool
+//@ ghost var consumeSid uint32
+// (permission to take a registration out of the routing table: granted by the arrival of a reply that carries
+//  that id (recv) or by the failure to send the request (dispatchRequest), and used up by getChannel. Nothing
+//  else may remove an entry, so an abandoned request keeps its entry until its own reply arrives.)
+
 //@ func (*clientConn).getChannel
 //@   property C20, C03, C04
 //@   results ch, ok
 //@   requires c != nil && c.inflight != nil
+//@   requires ghost.consumeOK && ghost.consumeSid == sid
+//@   update before call (*sync.Mutex).Lock#1: ghost.consumeOK = false
+//@   ensures !ghost.consumeOK
 //@   ensures c.inflight != nil
 //@   ensures ok <==> old(haskey(c.inflight, sid))
 //@   ensures ok ==> ch == old(c.inflight[sid])
@@ -1403,7 +1418,9 @@ package sftp
 //@   ensures !ghost.idFresh
 //@   assert before call (*clientConn).putChannel#1: arg2 == p.id() && arg1 == ch
 //@   update before call (*clientConn).putChannel#1: ghost.idFresh = false
-//@   modifies bytes, mapof c.inflight, ghost.idFresh
+//@   update after call (*conn).sendPacket#1: ghost.consumeOK = ret != nil
+//@   update after call (*conn).sendPacket#1: ghost.consumeSid = sid
+//@   modifies bytes, mapof c.inflight, ghost.idFresh, ghost.consumeOK, ghost.consumeSid
 
 //@ ghost var bSent int
 //@ ghost var bRepl int
